@@ -61,6 +61,9 @@ pub struct Script {
     pub client_path: String,
     #[serde(default)]
     pub read_cap: usize,
+    /// per-mille of the raw peer's HTTP/3 varints written in a non-shortest (legal) form
+    #[serde(default)]
+    pub stretch_pm: u32,
 }
 
 #[derive(Clone, Debug, Default)]
@@ -455,6 +458,7 @@ pub fn base_script(seed: u64, server_under_test: bool) -> Script {
         decision: "accept".into(),
         client_path: "/script".into(),
         read_cap: 0,
+        stretch_pm: if rng.chance_pm(300) { 350 } else { 0 },
     }
 }
 
